@@ -213,6 +213,12 @@ def Step : Op V → AMap V → AMap V → Ret V → Prop
   | .keys, d, d', r => d' = d ∧ ∃ l, Entries d l ∧ r = .keys (l.map (·.1))
   | .values, d, d', r => d' = d ∧ ∃ l, Entries d l ∧ r = .vals (l.map (·.2))
 
+/-- the contract for a whole history: the dictionaries and return values along `ops` -/
+inductive Run : List (Op V) → AMap V → AMap V → List (Ret V) → Prop where
+  | nil (d : AMap V) : Run [] d d []
+  | cons {o : Op V} {os : List (Op V)} {d d' d'' : AMap V} {r : Ret V} {rs : List (Ret V)} :
+      Step o d d' r → Run os d' d'' rs → Run (o :: os) d d'' (r :: rs)
+
 /-! ## order rules of the insertion-ordered (`preserve_order`) build, on key sequences -/
 
 /-- a new key goes to the end; an existing key keeps its place -/
